@@ -41,6 +41,12 @@ def call_prim(ip, name, args, kwargs):
         a, b = ip.seq_of(args[0]) if not isinstance(args[0], Z) else V.seq_items(args[0].t), \
             ip.seq_of(args[1]) if not isinstance(args[1], Z) else V.seq_items(args[1].t)
         return ZBool(z3.PrefixOf(a, b))
+    if name == "SemAt":
+        cond, data, j = args[0], args[1], args[2]
+        src = args[3] if len(args) > 3 else C(None)
+        F = z3.Function("SemAt", V.Val, V.Val, V.Val, V.I, V.Val, V.B)
+        jj = ip.as_int(j)
+        return ZBool(F(ip.to_z(cond), ip.to_z(data.attrs["_keys"]), ip.to_z(data.attrs["_values"]), jj, ip.to_z(src)))
     if name == "IsJson":
         return _is_json(ip, args[0])
     if name == "Binds":
